@@ -390,23 +390,6 @@ theorem C08_archive_roundtrip {s s' : State} (h : Reachable s) (hs : step s .sav
 (`WITNESSES`).  Stated for every well-formed queue (`R s.q qs`: the links represent the list `qs`, which is all the
 original code reaches before its first postponement or load) and on concrete reachable histories. -/
 
-/-- the history `newl 1; post 1 1 5 0; post 1 2 9 0` -/
-def origOps : List Op := [.newl 1, .act (.post 1 1 5 0), .act (.post 1 2 9 0)]
-
-theorem orig_pre : ∃ s, runC Cfg.original (init 0) origOps = some s ∧
-    R s.q [⟨1, 1, 1, 5, 0, 1⟩, ⟨2, 1, 2, 9, 0, 2⟩] ∧ s.h.alive = [1] ∧ s.h.ub = false ∧ s.h.log = [] ∧
-    s.h.cancelled = [] ∧ s.h.nextOrd = 3 := by
-  have hspec : ∃ ss, Machine.run ListQ.impl (Machine.init ListQ.impl 0) origOps = some ss ∧
-      ss.q = [⟨1, 1, 1, 5, 0, 1⟩, ⟨2, 1, 2, 9, 0, 2⟩] ∧ ss.h.alive = [1] ∧ ss.h.ub = false ∧ ss.h.log = [] ∧
-      ss.h.cancelled = [] ∧ ss.h.nextOrd = 3 := ⟨_, rfl, by decide⟩
-  obtain ⟨ss, hr, h1, h2, h3, h4, h5, h6⟩ := hspec
-  obtain ⟨s, hs, _, _⟩ := reachable_of_spec hr
-  obtain ⟨ss2, hr2, _, hh, hR⟩ := refines hs
-  rw [hr] at hr2
-  cases hr2
-  have e : runC Cfg.original (init 0) origOps = run (init 0) origOps := rfl
-  refine ⟨s, by rw [e]; exact hs, by rw [← h1]; exact hR, ?_, ?_, ?_, ?_, ?_⟩ <;> rw [hh] <;> assumption
-
 /-- **Original code: a postponed event is lost.**  `newl 1; post 1 1 5 0; post 1 2 9 0; PostponeEvent(1, type 1, 3)`:
     event 1 is moved from due time 5 to 8, stays the earliest — and is gone: it was posted, it is neither
     delivered nor cancelled nor pending (clause 4 of `C08_exactly_once` fails), although no undefined behaviour
